@@ -190,6 +190,7 @@ func init() {
 		t := BVAdd(BVMul(ZExt(128, secs), BVC(128, big.NewInt(1000000000))), ZExt(128, nanos))
 		return TimeV{T: t, Secs: secs}
 	}
+	I["time.After"] = func(e *Exec, fn *ssa.Function, a []Value) Value { return OpaqueV{Kind: "timerchan"} }
 	I["(time.Duration).String"] = func(e *Exec, fn *ssa.Function, a []Value) Value { return StrV{S: "<duration>"} }
 	I["(time.Duration).Seconds"] = func(e *Exec, fn *ssa.Function, a []Value) Value {
 		d := a[0].(*Term)
@@ -501,6 +502,10 @@ func (e *Exec) knownGlobal(name string, et types.Type) (Value, bool) {
 	case collPkg + ".ErrNotFound":
 		return errVal(errNotFound), true
 	}
+	const ecm = "github.com/ethereum/go-ethereum/common."
+	if bv, ok := map[string]int64{ecm + "Big0": 0, ecm + "Big1": 1, ecm + "Big2": 2, ecm + "Big3": 3, ecm + "Big32": 32, ecm + "Big256": 256, ecm + "Big257": 257}[name]; ok {
+		return PtrV{C: e.newCell(BigV{T: IntI(bv)})}, true
+	}
 	const be = "github.com/ethereum/go-ethereum/beacon/engine."
 	if sv, ok := map[string]string{be + "VALID": "VALID", be + "INVALID": "INVALID", be + "SYNCING": "SYNCING", be + "ACCEPTED": "ACCEPTED"}[name]; ok {
 		return StrV{S: sv}, true
@@ -545,6 +550,53 @@ func (e *Exec) opaqueMethod(o OpaqueV, name string, args []Value) (Value, bool) 
 			return StrV{S: "<btc address>"}, true
 		case "ScriptAddress":
 			return mkByteSlice(ad.prog), true
+		}
+	case "privkey":
+		if name == "PubKey" {
+			return IfaceV{T: types.NewPointer(errDynType), V: OpaqueV{Kind: "pubkey"}}, true
+		}
+	case "pubkey":
+		switch name {
+		case "Bytes":
+			return mkByteSlice(mkToken(33, 0x02, 0x50, 1)), true
+		case "Address":
+			return mkByteSlice(mkToken(20, 0xAD, 0x50, 1)), true
+		}
+	case "account":
+		switch name {
+		case "GetPubKey":
+			return IfaceV{T: types.NewPointer(errDynType), V: OpaqueV{Kind: "pubkey"}}, true
+		case "GetSequence":
+			return BVU(64, 3), true
+		case "GetAccountNumber":
+			return BVU(64, 7), true
+		}
+	case "txconfig":
+		switch name {
+		case "NewTxBuilder":
+			return IfaceV{T: types.NewPointer(errDynType), V: OpaqueV{Kind: "txbuilder", Data: &txBuilderObj{}}}, true
+		case "SignModeHandler":
+			return PtrV{Opq: &OpaqueObj{Kind: "signmodehandler"}}, true
+		case "TxEncoder":
+			return FuncV{Go: func(e *Exec, args []Value) Value {
+				// the encoded block transaction: an opaque, fixed byte string
+				return TupleV{V: []Value{mkByteSlice(StrV{S: "encoded-block-tx"}.Bytes()), IfaceV{}}}
+			}}, true
+		}
+	case "txbuilder":
+		tb := o.Data.(*txBuilderObj)
+		switch name {
+		case "SetMsgs":
+			if s, ok := args[0].(SliceV); ok {
+				tb.msgs = s.Len
+			}
+			return IfaceV{}, true
+		case "SetSignatures":
+			return IfaceV{}, true
+		case "SetGasLimit", "SetTimeoutHeight", "SetMemo", "SetFeeAmount":
+			return nil, true
+		case "GetTx":
+			return IfaceV{T: types.NewPointer(errDynType), V: OpaqueV{Kind: "builttx"}}, true
 		}
 	case "eventmanager", "logger":
 		switch name {
@@ -614,3 +666,5 @@ var _ = big.NewInt
 type CtxV struct {
 	F map[string]Value
 }
+
+type txBuilderObj struct{ msgs int }
